@@ -195,6 +195,18 @@ theorem adc_nonneg (cap : Option K) (gain : Gain K) (img : Int → Int → K) (i
     0 ≤ adcFrame Int.floor cap gain img i j := by
   unfold adcFrame; rw [adcValue_eq_max]; exact le_max_left _ _
 
+/-- digitisation never rounds up: a gain-polynomial value below a whole number `n > 0` of DN — by however little — gives fewer
+than `n` DN, and the DN never exceed the value (no "round-off guard" can be part of the floor) -/
+theorem adc_never_rounds_up (cap : Option K) (g : List K) (x : K) (n : Int) (hn : 0 < n)
+    (h : polyGain g (clipSat cap x) < (n : K)) :
+    adcValue Int.floor cap g x < n ∧ ((adcValue Int.floor cap g x : Int) : K) ≤ max 0 (polyGain g (clipSat cap x)) := by
+  rw [adcValue_eq_max]
+  constructor
+  · exact max_lt hn (Int.floor_lt.mpr h)
+  · rcases le_total 0 ⌊polyGain g (clipSat cap x)⌋ with h0 | h0
+    · rw [max_eq_right h0]; exact le_trans (Int.floor_le _) (le_max_right _ _)
+    · rw [max_eq_left h0]; simp
+
 /-- non-decreasing in the input for every gain curve that is non-decreasing on the counts that can reach it — `[0, cap]`
 with a saturation capacity, `[0, ∞)` without — whatever the signs of its coefficients (compressive curves with a negative
 quadratic term included): hypothesis on the curve, not on the coefficients -/
